@@ -217,6 +217,44 @@ pub fn run(ctx: &Ctx, st: &mut Stats, round: bool) {
     if stride == 1 {
         st.mark_exhaustive("Date: all dates x 12 units", "all 3,652,059 dates x 12 units, plus the monotonicity clause on every pair of consecutive days");
     }
+    // ---- history monitors: descending sweep, A,B,A, cold start (pure functions must not depend on call history)
+    ctx.par(st, "history: all dates descending x 12 units (Date)", true, 0, (N_DAYS as i64 + stride - 1) / stride, |st, i, _| {
+        let n = MAX_DAY as i64 - i * stride;
+        for u in UNITS {
+            st.eval(&one(round, u, TyK::Date, n, 0), check);
+        }
+    });
+    let na = ctx.tier.pick(200, 300_000, 3_000_000);
+    ctx.par(st, "history: A,B,A (all types, one unit)", false, 0, na, |st, i, rng| {
+        let u = *rng.pick(&UNITS);
+        let ty = *rng.pick(&[TyK::Date, TyK::Ts, TyK::Ora]);
+        let mk = |rng: &mut Rng| {
+            let x = rng.range_i64(TS_MIN, TS_MAX);
+            let (n, tod) = (x.div_euclid(DAY_US), x.rem_euclid(DAY_US));
+            match ty {
+                TyK::Date => one(round, u, ty, n, 0),
+                TyK::Ts => one(round, u, ty, n, tod),
+                TyK::Ora => one(round, u, ty, n, tod - tod % 1_000_000),
+            }
+        };
+        let a = mk(rng);
+        let b = if rng.chance(1, 2) { mk(rng) } else { one(round, u, ty, (a.n + rng.range_i64(-40, 40)).clamp(MIN_DAY as i64, MAX_DAY as i64), a.tod) };
+        for c in [a, b, a] {
+            st.eval_h(mix(mix(c.n as u64, c.tod as u64), mix(i as u64, u as u64)), &c, check);
+        }
+    });
+    cold_threads(st, "history: first call on a fresh thread", {
+        let mut v = vec![];
+        for u in UNITS {
+            for n in [0i64, 3, -1, 1, MIN_DAY as i64 + 10, MAX_DAY as i64 - 400, 11_016] {
+                v.push(one(round, u, TyK::Date, n, 0));
+                v.push(one(round, u, TyK::Ts, n, 43_200_000_000));
+                v.push(one(round, u, TyK::Ts, n, 0));
+                v.push(one(round, u, TyK::Ora, n, 41_000_000));
+            }
+        }
+        v
+    }, check);
     if round {
         // bridge the excluded century-end years: last day of year ..99 against first day of year ..01
         st.stratum("Date: century monotonicity across excluded years", true);
